@@ -184,6 +184,22 @@ func (r *fakeRelay) RecvStream(ctx context.Context, in *hashmailrpc.CipherBoxDes
 	return &relayRecv{dummyStream: dummyStream{ctx}, r: r, id: string(in.StreamId), closed: make(chan struct{})}, nil
 }
 
+// inject puts a message into an existing mailbox (as if a sender had left it there); false if there is none.
+func (r *fakeRelay) inject(id string, msg []byte) bool {
+	r.mu.Lock()
+	box, ok := r.boxes[id]
+	r.mu.Unlock()
+	if !ok {
+		return false
+	}
+	select {
+	case box.ch <- append([]byte{}, msg...):
+		return true
+	default:
+		return false
+	}
+}
+
 func (r *fakeRelay) streamIDs() []string {
 	r.mu.Lock()
 	defer r.mu.Unlock()
